@@ -185,6 +185,22 @@ def families(rng, quick):
                      lambda d: If(B(">", V("c"), I(0)), Block([ES(A(V("c"), I(1)))]), Block([d]))):
             m = Module([fn([("c", "int")], rt, [Decl(ot, "x", None, dims=odims), nest(redecl), Ret(use())])])
             out.append(("nested-redeclaration", m, [{"fn": "f", "args": {"c": 1}}, {"fn": "f", "args": {"c": 0}}, {"fn": "f", "args": {"c": 7}}]))
+    # F9: SIBLING scopes (accepted by the front end) that declare one name with different types, both executed in one invocation, each variable
+    #     used in its own scope with an operation of its own type: the later declaration is a new variable of the later type
+    uses = {("int", None): lambda: B("+", V("x"), I(1)), ("float", None): lambda: B("*", V("x"), F("2.0")), ("float2", None): lambda: Mem(V("x"), "y"),
+            ("int3", None): lambda: Mem(V("x"), "z"), ("float3x3", None): lambda: Idx(Idx(V("x"), I(2)), I(1)), ("int", (3,)): lambda: Idx(V("x"), I(2)),
+            ("float4", None): lambda: Idx(V("x"), I(3))}
+    res_t = {("int", None): "int", ("float", None): "float", ("float2", None): "float", ("int3", None): "int", ("float3x3", None): "float", ("int", (3,)): "int", ("float4", None): "float"}
+    for (t1, d1), (t2, d2) in itertools.permutations(list(uses), 2):
+        def scope(t, d, acc):
+            return [Decl(t, "x", None, dims=list(d) if d else None), ES(A(V(acc), uses[(t, d)]()))]
+        r1, r2 = res_t[(t1, d1)], res_t[(t2, d2)]
+        for k, (first, second) in enumerate(((lambda b: Block(b), lambda b: Block(b)),
+                                             (lambda b: If(B(">", V("c"), I(0)), Block(b)), lambda b: If(B(">", V("c"), I(1)), Block(b))),
+                                             (lambda b: Block(b), lambda b: While(B(">", V("c"), I(0)), Block(b + [ES(A(V("c"), B("-", V("c"), I(1))))]))))):
+            m = Module([fn([("c", "int")], "float", [Decl(r1, "u", None), Decl(r2, "w", None), first(scope(t1, d1, "u")), second(scope(t2, d2, "w")),
+                                                    Ret(B("+", B("*", V("u"), F("1.0")), V("w")))])])
+            out.append(("sibling-redeclaration", m, [{"fn": "f", "args": {"c": 2}}, {"fn": "f", "args": {"c": 1}}, {"fn": "f", "args": {"c": 0}}]))
     return out
 
 
